@@ -242,6 +242,15 @@ class Partial:
         return 'Partial(%r,%d args,%s)' % (self.target, len(self.args), sorted(self.keywords))
 
 
+class SelectedBackend:
+    """`mapper(x)`: the function selected from a backend table for the array type of x"""
+    def __init__(self, table):
+        self.table = table
+
+    def __repr__(self):
+        return 'Selected(%r)' % self.table
+
+
 class BackendTable:
     def __init__(self, entries, node, scope):
         self.entries = entries   # backend -> ast expr
@@ -406,7 +415,7 @@ class Program:
                     entries[names[i]] = a
                 return BackendTable(entries, expr, scope)
             if isinstance(callee, BackendTable):
-                return callee   # mapper(agg) -> the table; caller picks a backend
+                return SelectedBackend(callee)   # mapper(agg) -> the entry selected for agg's array type
             return ('callresult', callee, expr, module, scope)
         return None
 
